@@ -121,7 +121,9 @@ Step == StepT /\ Emit([act |-> "Lik", id |-> Cfg.id, newick |-> Cfg.newick, leaf
                        model |-> PInstances[Cfg.rootinst].name,
                        pi |-> {<<x, RootPi(Cfg, x)>> : x \in Nuc},
                        bprobs |-> Cfg.bprobs, mult |-> Cfg.mult, qpow |-> Cfg.qpow,
-                       hmm |-> Cfg.hmm, switch |-> Cfg.switch,
+                       hmm |-> Cfg.hmm, switch |-> Cfg.switch, loci |-> Cfg.loci,
+                       loccols |-> [l \in 1..Len(Cfg.loccols) |-> [i \in 1..Len(Cfg.loccols[l]) |-> [n \in Leaves(Cfg) |-> Cfg.loccols[l][i][n]]]],
+                       loclik |-> [l \in 1..Len(Cfg.loccols) |-> [i \in 1..Len(Cfg.loccols[l]) |-> SiteB(Cfg, ColOf(Cfg, Cfg.loccols[l][i]), l)]],
                        binpar |-> [b \in 1..Len(Cfg.bininst) |-> <<PInstances[Cfg.bininst[b]].par, PInstances[Cfg.bininst[b]].ky>>],
                        alnlik |-> IF Cfg.hmm THEN HmmLik(Cfg, [i \in 1..Len(Cfg.cols) |-> ColOf(Cfg, Cfg.cols[i])]) ELSE Zero,
                        cols |-> [i \in 1..Len(Cfg.cols) |-> [n \in Leaves(Cfg) |-> Cfg.cols[i][n]]],
@@ -152,6 +154,16 @@ SwitchZeroIsOnePatch == Cfg.hmm =>
 BinLengthsConsistent == (Cfg.hmm /\ Cfg.bininst # <<>>) =>
     \A n \in Nodes(Cfg) \ {1} : \A b \in 1..NBins(Cfg) :
         RMul(R(Cfg.mult[b] * PInstances[Cfg.bininst[b]].n1, 1), Mu(PInstances[Cfg.bininst[b]]))
+          = RMul(R(Cfg.qpow * PInstances[Cfg.inst[n]].n1, 1), Mu(PInstances[Cfg.inst[n]]))
+(* Several LOCI (loci = TRUE): each locus has its own alignment (loccols[l]) and its own model instance           *)
+(* (bininst[l], base s^mult[l]: the tree and its branch lengths are shared); loci are independent, so the         *)
+(* likelihood of the data set is the product over loci of the products over their columns, and every locus is a   *)
+(* probability distribution over its columns.                                                                     *)
+LociNormalised == (Cfg.loci /\ Cfg.normalise) =>
+    \A l \in 1..Len(Cfg.loccols) : RSumSet(CanonCols(Cfg), [col \in CanonCols(Cfg) |-> SiteB(Cfg, col, l)]) = One
+LociLengthsConsistent == Cfg.loci =>
+    \A n \in Nodes(Cfg) \ {1} : \A l \in 1..Len(Cfg.loccols) :
+        RMul(R(Cfg.mult[l] * PInstances[Cfg.bininst[l]].n1, 1), Mu(PInstances[Cfg.bininst[l]]))
           = RMul(R(Cfg.qpow * PInstances[Cfg.inst[n]].n1, 1), Mu(PInstances[Cfg.inst[n]]))
 (* all alignments of two canonical columns have total probability one *)
 HmmSumsToOne == (Cfg.hmm /\ Cfg.normalise) =>
